@@ -710,10 +710,33 @@ func subSweep(out string, seed uint64, tier string, arg string) {
 	rep := newReport("sweep:"+arg, seed, tier)
 	rep.Rule = "every object of /repo/v3/testdata (certificates, CRLs, OCSP responses) plus parser-accepted mutants (byte flips and structural edits inside extensions) through Lint*Ex with the global registry; distinct = distinct DER inputs; non-trivial = accepted by the parser"
 	props := map[string]bool{}
+	focus := ""
+	if i := strings.IndexByte(arg, '@'); i >= 0 {
+		// "C02@lintA,lintB": only these lints, with a ten-fold mutation budget (used when a proof obligation about them broke)
+		focus, arg = arg[i+1:], arg[:i]
+	}
 	for _, p := range strings.Split(arg, ",") {
 		props[strings.TrimSpace(p)] = true
 	}
 	g := lint.GlobalRegistry()
+	if focus != "" {
+		var names []string
+		known := map[string]bool{}
+		for _, n := range g.Names() {
+			known[n] = true
+		}
+		for _, n := range strings.Split(focus, ",") {
+			if known[n] {
+				names = append(names, n)
+			}
+		}
+		if fr, err := g.Filter(lint.FilterOptions{IncludeNames: names}); err == nil && len(names) > 0 {
+			g = fr
+			rep.Rule += "; FOCUSED on lints " + strings.Join(names, ",")
+		} else {
+			focus = ""
+		}
+	}
 	st := &sweepState{rep: rep, props: props, metas: registryMetas(g), observed: map[string]map[int]bool{}, global: g}
 	objs := loadObjects()
 	perObj := 6
@@ -722,6 +745,9 @@ func subSweep(out string, seed uint64, tier string, arg string) {
 	}
 	if props["C04"] && !props["C01"] && !props["C02"] {
 		perObj = perObj / 3
+	}
+	if focus != "" {
+		perObj *= 10
 	}
 	filteredRegs := []struct {
 		desc string
